@@ -306,3 +306,31 @@ def finish(ctx):
 def sample(xs, k):
     xs = list(xs)
     return xs[:k]
+
+
+class Pristine:
+    """Client of harness/pristine.py (fresh interpreter state per request)."""
+
+    def __init__(self):
+        env = dict(os.environ)
+        env["PYTHONPATH"] = repo_src() + os.pathsep + HERE
+        self.p = subprocess.Popen([sys.executable, "-B", os.path.join(HERE, "pristine.py")], stdin=subprocess.PIPE,
+                                  stdout=subprocess.PIPE, text=True, env=env)
+
+    def ask(self, kind, doc, call="md", kw=None):
+        self.p.stdin.write(json.dumps({"kind": kind, "doc": doc, "call": call, "kw": kw}) + "\n")
+        self.p.stdin.flush()
+        line = self.p.stdout.readline()
+        if not line:
+            raise Infra("pristine server died")
+        r = json.loads(line)
+        if "ok" in r:
+            return r["ok"]
+        return ["EXC", r["exc"]]
+
+    def close(self):
+        try:
+            self.p.stdin.close()
+            self.p.wait(timeout=10)
+        except Exception:
+            self.p.kill()
